@@ -143,6 +143,34 @@ func (e *Env) Run(msg sdk.Msg) (r MsgResult) {
 	return MsgResult{Out: OutOk, Data: res.Data, Res: res}
 }
 
+// RunTx executes several messages as ONE transaction the way baseapp.runTx/runMsgs does: every message
+// passes ValidateBasic before any handler runs, the handlers run in order on one cache context, and the
+// first failure (or panic) discards the writes of ALL of them.  failedAt = index of the failing message (-1: none).
+func (e *Env) RunTx(msgs ...sdk.Msg) (out string, failedAt int, errText string) {
+	for i, m := range msgs {
+		if verr := m.ValidateBasic(); verr != nil {
+			return OutFail, i, "validatebasic: " + verr.Error()
+		}
+	}
+	cctx, write := e.Ctx.CacheContext()
+	for i, m := range msgs {
+		h := e.App.MsgServiceRouter().Handler(m)
+		if h == nil {
+			return OutFail, i, "no handler"
+		}
+		var herr error
+		pn := Guard(func() { _, herr = h(cctx, m) })
+		if pn != "" {
+			return OutPanic, i, pn
+		}
+		if herr != nil {
+			return OutFail, i, herr.Error()
+		}
+	}
+	write()
+	return OutOk, -1, ""
+}
+
 // Guard runs f and reports a panic as an error string ("" = completed).
 func Guard(f func()) (p string) {
 	defer func() {
